@@ -106,6 +106,7 @@ def _prepare(fid, kf_entries):
     return (fid, vc, info, items)
 
 
+BASE_RLIMIT = [0]
 PATHSCAN = -1000000
 PATHCHUNK = 6
 
@@ -127,14 +128,16 @@ def _solve_one(job):
         return (fi, oi, {"cover": name, "result": check_cover(vc, pcs)})
     ob, ents, ob2 = items[oi]
     rec = {"oid": ob.oid, "kind": ob.kind, "label": ob.label, "note": ob.note, "where": ob.where, "kf": None}
+    # first attempt: 45 s wall per pass (obligations of the unchanged tree take seconds); the retry gets 120 s
+    tmo = 120000 if rlimit > BASE_RLIMIT[0] else 45000
     if ents:
-        check_obligation(vc, ob2, rlimit=rlimit)
+        check_obligation(vc, ob2, rlimit=rlimit, timeout_ms=tmo)
         rec.update(status="known-finding", backend=None, time=0.0, model=None)
         rec["kf"] = {"ids": [e["id"] for e in ents], "status": ob2.status, "backend": ob2.backend,
                      "time": round(ob2.time, 3), "model": ob2.model}
         rec["solver_time"] = ob2.time
     else:
-        check_obligation(vc, ob, rlimit=rlimit)
+        check_obligation(vc, ob, rlimit=rlimit, timeout_ms=tmo)
         rec.update(status=ob.status, backend=ob.backend, time=round(ob.time, 3), model=ob.model,
                    reason=getattr(ob, "reason", None))
         rec["solver_time"] = ob.time
@@ -300,6 +303,7 @@ def run_check(prop, args, seed, t0):
 
     # 2. proofs: symbolic execution per function here, then every obligation solved in a forked pool
     rlimit = int(os.environ.get("PYVC_RLIMIT", "40000000" if tier == "quick" else "120000000"))
+    BASE_RLIMIT[0] = rlimit
     global _PREP
     _PREP = [_prepare(f, [e for e in active if e.get("obligation", "").startswith(f + "#")]) for f in fids]
     sjobs = []
